@@ -18,6 +18,8 @@ def run(ctx):
     host.h2(ctx)
     host.h3(ctx)
     host.h4(ctx)
+    host.h5(ctx)
+    host.h6(ctx)
     host.t9(ctx)
     host.ord3_ord5c(ctx)
     host.ord5(ctx)
